@@ -218,10 +218,11 @@ func runDispatchTable(args []string) {
 // the built binary
 
 type poolProc struct {
-	cmd  *exec.Cmd
-	addr string
-	out  *bytes.Buffer
-	mu   sync.Mutex
+	cmd    *exec.Cmd
+	addr   string
+	out    *bytes.Buffer
+	mu     sync.Mutex
+	exited chan struct{}
 }
 
 func freePort() string {
@@ -237,12 +238,16 @@ func startPool(bin string, extra ...string) *poolProc {
 	addr := freePort()
 	args := append([]string{"-vv", "pool", "--bind", addr, "--store", "memory"}, extra...)
 	cmd := exec.Command(bin, args...)
-	p := &poolProc{cmd: cmd, addr: addr, out: &bytes.Buffer{}}
+	p := &poolProc{cmd: cmd, addr: addr, out: &bytes.Buffer{}, exited: make(chan struct{})}
 	stderr, _ := cmd.StderrPipe()
 	stdout, _ := cmd.StdoutPipe()
 	if err := cmd.Start(); err != nil {
 		fatal("start pool: %v", err)
 	}
+	go func() {
+		cmd.Wait()
+		close(p.exited)
+	}()
 	for _, r := range []interface{ Read([]byte) (int, error) }{stderr, stdout} {
 		go func(r interface{ Read([]byte) (int, error) }) {
 			sc := bufio.NewScanner(r)
@@ -273,12 +278,17 @@ func (p *poolProc) output() string {
 }
 
 func (p *poolProc) alive() bool {
-	return p.cmd.ProcessState == nil && p.cmd.Process.Signal(syscall.Signal(0)) == nil && !strings.Contains(p.output(), "panic:")
+	select {
+	case <-p.exited:
+		return false
+	default:
+	}
+	return p.cmd.Process.Signal(syscall.Signal(0)) == nil
 }
 
 func (p *poolProc) stop() {
 	p.cmd.Process.Kill()
-	p.cmd.Wait()
+	<-p.exited
 }
 
 func httpRPC(addr string, body string) (int, string) {
